@@ -44,15 +44,9 @@ func Matches(pass *analysis.Pass, qs ...pattern.Pattern) iter.Seq2[ast.Node, *pa
 				continue
 			}
 
-			if len(q.RootCallSymbols) != 0 {
-				index := pass.ResultOf[typeindexanalyzer.Analyzer].(*typeindex.Index)
-				for _, isym := range q.RootCallSymbols {
-					var obj types.Object
-					if isym.Type == "" {
-						obj = index.Object(isym.Path, isym.Ident)
-					} else {
-						obj = index.Selection(isym.Path, isym.Type, isym.Ident)
-					}
+			index := pass.ResultOf[typeindexanalyzer.Analyzer].(*typeindex.Index)
+			if callees, ok := rootCallees(index, q); ok {
+				for _, obj := range callees {
 					for c := range index.Calls(obj) {
 						node := c.Node()
 						if m, ok := Match(pass, q, node); ok {
@@ -78,6 +72,40 @@ func Matches(pass *analysis.Pass, qs ...pattern.Pattern) iter.Seq2[ast.Node, *pa
 			}
 		}
 	}
+}
+
+// rootCallees returns the functions named by q.RootCallSymbols, if the call
+// sites of these functions, as found by the index, are all the nodes that q can
+// match. Otherwise it returns false and all of q.EntryNodes have to be tried.
+//
+// The index only finds calls of functions and methods. Root symbols can also
+// name builtins, which the index doesn't track, as well as types and
+// variables, whose conversions and calls it doesn't report as calls.
+func rootCallees(index *typeindex.Index, q pattern.Pattern) ([]types.Object, bool) {
+	if len(q.RootCallSymbols) == 0 {
+		return nil, false
+	}
+	var callees []types.Object
+	for _, isym := range q.RootCallSymbols {
+		if isym.Path == "" {
+			return nil, false
+		}
+		var obj types.Object
+		if isym.Type == "" {
+			obj = index.Object(isym.Path, isym.Ident)
+		} else {
+			obj = index.Selection(isym.Path, isym.Type, isym.Ident)
+		}
+		switch obj.(type) {
+		case nil:
+			// Not referenced by this package.
+		case *types.Func:
+			callees = append(callees, obj)
+		default:
+			return nil, false
+		}
+	}
+	return callees, true
 }
 
 func Match(pass *analysis.Pass, q pattern.Pattern, node ast.Node) (*pattern.Matcher, bool) {
